@@ -4,9 +4,15 @@
 
 int g_delta_len0, g_delta_stop, g_delta_seen;
 unsigned g_delta_win;
+void free(void *p) { }      /* the retriever state is a static harness object here; retrieve()'s free() of it is a no-op */
 
 void *xmalloc(size_t n) { return malloc(n); }
 
+#ifndef DELTA_J
+#define DELTA_J 0
+#define DELTA_AS 3
+#define DELTA_T 0
+#endif
 static struct retriever_internal_state RS;
 static uint32_t TT[MAX_BLOCK_SIZE];
 
@@ -38,6 +44,122 @@ void h_delta_step(void)
   /* only the reject path returns here (the accept path is cut after its assertions) */
   V_ASSERT(rv == ERR_DELTA && g_delta_seen == 1, "delta step: harness reaches exactly one window");
   V_CANARY("delta reject path reached");
+}
+
+
+int g_mt_stop, g_mt_verdict;
+unsigned g_sel_win; int g_sel_seen, g_sel_stop, g_group_stop, g_eob_ok;
+unsigned g_nsel_read;
+int g_no_mtfv;
+
+/* O5.5 / O6.2  make_tree(): the completeness decision for EVERY length vector (alphabet size and all 258 lengths symbolic).
+   Reference: Kraft sum over the used symbols, computed directly from the definition (sum of 2^(20-len)). */
+void h_make_tree_kraft(void)
+{
+#ifndef KRAFT_T
+#define KRAFT_T 0
+#endif
+  V_IN(unsigned, as);
+  unsigned t = KRAFT_T;        /* concrete table slot per instance (a symbolic slot is a symbolic offset into the 60 KB state) */
+  V_IN_ARR(uint8_t, len, MAX_ALPHA_SIZE);
+  unsigned s; uint64_t kraft = 0;
+#ifndef KRAFT_MAX_AS
+#define KRAFT_MAX_AS MAX_ALPHA_SIZE
+#endif
+  V_ASSUME(as >= MIN_ALPHA_SIZE && as <= KRAFT_MAX_AS && t < MAX_TREES);
+  for (s = 0; s < KRAFT_MAX_AS; s++) {
+    if (s < as) { V_ASSUME(len[s] >= MIN_CODE_LENGTH && len[s] <= MAX_CODE_LENGTH); kraft += (uint64_t)1 << (MAX_CODE_LENGTH - len[s]); }   /* retrieve() only stores lengths 1..20 (delta lemma) */
+    RS.code_len[s] = len[s];
+  }
+  RS.alpha_size = as; RS.t = t; RS.mtf[t] = 99;
+  g_mt_stop = 1; g_mt_verdict = -1;
+  make_tree(&RS);
+  if (kraft == ((uint64_t)1 << MAX_CODE_LENGTH)) {
+    V_ASSERT(g_mt_verdict == 0 && RS.mtf[t] == 99, "a complete prefix code (Kraft sum exactly 1) is accepted: tables are built");
+    V_CANARY("complete table");
+  } else if (kraft < ((uint64_t)1 << MAX_CODE_LENGTH)) {
+    V_ASSERT(g_mt_verdict == -1 && RS.mtf[t] == ERR_INCOMPLT, "an incomplete code (Kraft sum below 1) is marked ERR_INCOMPLT");
+    V_CANARY("incomplete table");
+  } else {
+    V_ASSERT(g_mt_verdict == -1 && RS.mtf[t] == ERR_PREFIX, "an oversubscribed code (Kraft sum above 1) is marked ERR_PREFIX");
+    V_CANARY("oversubscribed table");
+  }
+}
+
+/* O5.6  One selector code of the real retrieve(), entered through the resume point S_SELECTOR_MTF. */
+#ifndef SEL_J
+#define SEL_J 0
+#endif
+void h_selector_step(void)
+{
+  struct decoder_state ds; struct bitstream bs; uint32_t mem[1];
+  V_IN(unsigned, nt);
+  V_IN(unsigned, live);
+  V_IN(uint64_t, buff);
+  V_IN(uint32_t, word);
+  V_ASSUME(nt >= MIN_TREES && nt <= MAX_TREES && live < 32 && (buff << live) == 0 && (live != 0 || buff == 0));
+  mem[0] = word;
+  ds.internal_state = &RS; ds.tt = TT; ds.block_size = 0;
+  RS.state = S_SELECTOR_MTF; RS.j = SEL_J; RS.num_selectors = SEL_J + 2; RS.num_trees = nt; RS.alpha_size = 3;
+  bs.live = live; bs.buff = buff; bs.data = mem; bs.limit = mem + 1; bs.eof = 0; bs.block = 0;
+  g_sel_stop = 1; g_sel_seen = 0;
+  /* the resume point re-enters the loop at its end (j++), so the code examined is selector SEL_J+1 */
+  int rv = retrieve(&ds, &bs);
+  V_ASSERT(rv == ERR_SELECTOR && g_sel_seen == 1, "selector step: the harness reaches exactly one selector code");
+  V_CANARY("selector reject path reached");
+}
+
+/* O6.6  After the tables: only the first 18001 selectors are used.  Entered at the last delta code of the last table
+   (resume point S_DELTA_TAG) with a concrete complete 3-symbol table and a symbolic selector count. */
+void h_selector_cap(void)
+{
+  struct decoder_state ds; struct bitstream bs; uint32_t mem[2];
+  V_IN(unsigned, nsel);
+  V_ASSUME(nsel >= 1 && nsel <= MAX_SELECTORS);
+  mem[0] = 0; mem[1] = 0;
+  ds.internal_state = &RS; ds.tt = TT; ds.block_size = 0;
+  RS.state = S_DELTA_TAG; RS.num_trees = 2; RS.t = 1; RS.alpha_size = 3; RS.j = 2; RS.num_selectors = nsel;
+  RS.code_len[0] = 1; RS.code_len[1] = 2; RS.code_len[2] = 2;
+  bs.live = 0; bs.buff = 0; bs.data = mem; bs.limit = mem + 2; bs.eof = 0; bs.block = 0;   /* next bit 0: the last length is final */
+  g_delta_stop = 0; g_mt_stop = 1; g_group_stop = 1;
+  int rv = retrieve(&ds, &bs);
+  V_ASSERT(0, "selector cap: the run is cut at the group loop");
+}
+
+/* O5.6 / C08  End of block: ERR_EMPTY / ERR_BWTIDX.  Entered at S_PREFIX with a real 3-symbol table (RUNA=0, RUNB=10, EOB=11)
+   built by the real make_tree(); <= 8 symbolic input bits, symbolic primary index and symbolic block fill. */
+#ifndef EOB_FILL
+#define EOB_FILL 0
+#endif
+void h_end_of_block(void)
+{
+  struct decoder_state ds; struct bitstream bs;
+  V_IN(unsigned, idx);
+  V_IN(unsigned, sym8);
+  V_IN(unsigned, run0);
+  V_IN(unsigned, shift0);
+  uint32_t mem[1];
+  V_ASSUME(idx < (1u << 24) && sym8 < 16 && run0 <= 3 && shift0 <= 1);
+  { uint32_t w = (sym8 << 28) | 0x0FFFFFFFu; mem[0] = htonl(w); }      /* 4 symbolic bits, then ones: the block ends (EOB = 11) within 6 bits */
+  static uint32_t tt_small[64];           /* at most 3 + 15 + EOB_FILL symbols are produced here; tt_limit is only compared, never dereferenced */
+  ds.internal_state = &RS; ds.tt = tt_small; ds.block_size = EOB_FILL; ds.bwt_idx = idx;
+  RS.alpha_size = 3; RS.code_len[0] = 1; RS.code_len[1] = 2; RS.code_len[2] = 2; RS.num_trees = 2; RS.num_selectors = 1; RS.g = 0;
+  g_mt_stop = 0;
+  RS.t = 0; make_tree(&RS);
+  RS.state = S_PREFIX; RS.j = 0; RS.t = 0; RS.run = run0; RS.shift = shift0; RS.runChar = 65;
+  bs.live = 0; bs.buff = 0; bs.data = mem; bs.limit = mem + 1; bs.eof = 1; bs.block = 0;
+  g_eob_ok = 0; g_no_mtfv = 1;
+  int rv = retrieve(&ds, &bs);
+  V_ASSERT(rv != OK || (g_eob_ok && ds.block_size > 0 && idx < ds.block_size && ds.internal_state == 0), "OK only for a non-empty block whose primary index is inside it");
+  V_ASSERT(rv != ERR_EMPTY || ds.block_size == 0, "ERR_EMPTY only for an empty block");
+  V_ASSERT(rv != ERR_BWTIDX || (ds.block_size > 0 && idx >= ds.block_size), "ERR_BWTIDX only for an index outside the block");
+  V_ASSERT(rv == OK || rv == ERR_EMPTY || rv == ERR_BWTIDX || rv == ERR_EOF || rv == ERR_OVERFLOW, "end-of-block section returns one of its documented results");
+  V_ASSERT(ds.block_size <= EOB_FILL + 3 + 15, "symbols written = pending run + the runs coded by the 4 input bits (the 64-entry stand-in array is never overrun)");
+  if (rv == OK) V_CANARY("block accepted");
+  if (rv == ERR_BWTIDX) V_CANARY("index rejected");
+#if EOB_FILL == 0
+  if (rv == ERR_EMPTY) V_CANARY("empty rejected");
+#endif
 }
 
 #ifdef VERIF_REPLAY
